@@ -42,7 +42,7 @@ def run(ctx, rep):
     rep.floor("C07.make_function capture inserts", len(ins), 1)
     for c in ins:
         origin_ok(rep, "C07.capture-aliases", "make_function: captured value is the looked-up cell itself", mf, op_local(c.args[2]),
-                  ["bytecode::context::Ctx::load_variable", "bytecode::context::Ctx::load_callback_variable"], where=c.span)
+                  ["bytecode::context::Ctx::load_variable", "bytecode::context::Ctx::load_callback_variable", "bytecode::context::Ctx::load_local"], where=c.span)
         # name stored == name looked up
         key_src = rules.trace_paths(mf, op_local(c.args[1]), transparent=PASS)
         val_calls = rules.origin_calls(mf, op_local(c.args[2]), transparent=PASS)
@@ -73,28 +73,51 @@ def run(ctx, rep):
         rep.ob("C07.capture-aliases", "make_function: the function value carries the filled capture map", "ok" if ok else "violated",
                "", c.span, fn=mf.path)
 
-    # the live frame takes precedence over the closure's own captures, in `load` and in `make_function` alike
-    # (sibling cross-check: a read and a capture of the same name must resolve to the same cell)
+    # lexical scoping, in `load` and in `make_function` alike (sibling cross-check: a read and a capture of the same name must resolve to the same
+    # cell): a name is looked up in the running function's own frames first, then in what the function captured, and only then -- if at all --
+    # in the frames of its callers.  (Until fix (see known_findings.json) the two handlers searched the whole call stack first, which is dynamic scoping; an earlier
+    # version of this rule had taken that order for the intended one.)
+    OWN = ("bytecode::context::Ctx::load_local", "bytecode::stack::Stack::find_name_in_function")
     for path in ("bytecode::instruction::implementations::load", "bytecode::instruction::implementations::make_function"):
         g = need(F, path)
-        lv = g.calls_to("bytecode::context::Ctx::load_variable")
+        own = g.calls_to(OWN)
         lc = g.calls_to("bytecode::context::Ctx::load_callback_variable")
-        ok = bool(lv) and bool(lc)
-        detail = "lookup calls: load_variable=%d load_callback_variable=%d" % (len(lv), len(lc))
-        if ok:
+        lv = g.calls_to("bytecode::context::Ctx::load_variable")
+
+        def miss_edges(calls):
             edges = set()
-            for c in lv:
+            for c in calls:
                 sw = rules.find_discr_switch(g, c.target, c.dst["l"])
-                if sw is not None:
-                    edges.add((sw, _cells.variant_edge(g, sw, 0)))
-            ok = bool(edges) and all(rules.edge_dominated(g, c.bb, edges) for c in lc)
-            detail = "the captured set is consulted only when the frame lookup found nothing: %s" % ok
-        rep.ob("C07.lookup-precedence", "%s: a name resolves to the live frame first, then to the closure's captures" % mir.short(path),
-               "ok" if ok else "violated", detail, g.span, fn=g.path, key="C07.lookup-precedence|%s" % mir.short(path))
+                if sw is None:
+                    continue
+                ty = g.locals[c.dst["l"]]
+                # Option: None = variant 0; Result: Err = variant 1
+                edges.add((sw, _cells.variant_edge(g, sw, 1 if ty.startswith("core::result::Result") else 0)))
+            return edges
+        problems = []
+        if not own:
+            problems.append("the running function's own frames are not searched first (no load_local / find_name_in_function)")
+        if not lc:
+            problems.append("the captured variables are never consulted")
+        if own and lc:
+            e_own = miss_edges(own)
+            if not e_own or not all(rules.edge_dominated(g, c.bb, e_own) for c in lc):
+                problems.append("the captures are consulted on a path where the function's own frames were not searched and found wanting")
+            if lv:
+                e_cap = miss_edges(lc)
+                if not e_cap or not all(rules.edge_dominated(g, c.bb, e_own) and rules.edge_dominated(g, c.bb, e_cap) for c in lv):
+                    problems.append("the callers' frames (whole-stack lookup) are searched before the function's own frames and captures: a same-named variable of a caller shadows the captured one")
+        elif lv and not own:
+            pass
+        rep.ob("C07.lookup-precedence", "%s: a name resolves in the running function's frames, then in its captures, then (at most) in its callers' frames" % mir.short(path),
+               "violated" if problems else "ok", "; ".join(problems) or "own=%d captures=%d whole-stack=%d" % (len(own), len(lc), len(lv)), g.span, fn=g.path,
+               key="C07.lookup-precedence|%s" % mir.short(path))
 
     # lookup helpers hand out the stored cell
     for path, expect in (
         ("bytecode::context::Ctx::load_variable", ["bytecode::stack::Stack::find_name"]),
+        ("bytecode::context::Ctx::load_local", ["bytecode::stack::Stack::find_name_in_function"]),
+        ("bytecode::stack::Stack::find_name_in_function", ["bytecode::stack::VariableMapping::get"]),
         ("bytecode::context::Ctx::load_callback_variable", ["bytecode::stack::VariableMapping::get"]),
         ("bytecode::stack::Stack::find_name", ["bytecode::stack::VariableMapping::get"]),
         ("bytecode::stack::VariableMapping::get", ["std::collections::hash::map::HashMap::get"]),
